@@ -255,6 +255,18 @@ def check_randomness(ctx, num=3):
                                 changed = True
         leaks = []
         for n in own_nodes(f.node):
+            if isinstance(n, ast.Call) and norm.U(n.func).startswith("time."):
+                st = n
+                while not isinstance(st, ast.stmt):
+                    st = parent(st)
+                okc = False
+                if isinstance(st, (ast.Assign, ast.AugAssign)):
+                    tg = st.targets if isinstance(st, ast.Assign) else [st.target]
+                    okc = all((isinstance(t, ast.Name) and t.id in tainted) or (isinstance(t, ast.Attribute) and t.attr.startswith("timing_")) for t in tg)
+                if isinstance(st, ast.Expr) and isinstance(st.value, ast.Call) and norm.U(st.value.func).startswith("logger."):
+                    okc = True
+                if not okc:
+                    leaks.append((st, norm.U(n)))
             if isinstance(n, ast.Name) and n.id in tainted and isinstance(n.ctx, ast.Load):
                 st = n
                 while not isinstance(st, ast.stmt):
@@ -409,7 +421,12 @@ def check_construction(ctx, num=6):
         f = P.fn(rel, q)
         ctx.touch(f)
         cs = calls_named(f, "WorkloadGenerator")
-        ok = len(cs) == 1 and not cs[0].args and len(cs[0].keywords) == 1 and cs[0].keywords[0].arg is None and norm.U(cs[0].keywords[0].value) == "params"
+        ok = len(cs) == 1 and not cs[0].args and len(cs[0].keywords) == 1 and cs[0].keywords[0].arg is None and isinstance(cs[0].keywords[0].value, ast.Name)
+        if ok:
+            # the dict is the (defaults-completed) parameter dict: one of its definitions is parse_args_with_defaults(...)
+            nm = cs[0].keywords[0].value.id
+            ok = any(isinstance(n, ast.Assign) and norm.is_name(n.targets[0], nm) and isinstance(n.value, ast.Call) and norm.call_name(n.value) == "parse_args_with_defaults"
+                     for n in own_nodes(f.node))
         ctx.ob(num, "K6", f"{q} builds the generator from the parameter dict itself (WorkloadGenerator(**params)), not from executor or scheduler objects", ok, f, cs[0] if cs else f.node,
                detail=f"{[norm.U(c) for c in cs]}")
     # the same dict feeds executor and scheduler: the generator cannot see anything they add
